@@ -80,7 +80,9 @@ func c13Analyze(nfiles int, makefileBytes int, scripts int) {
 		"C13: analysing the same listing twice gives the same flags")
 	verifAssert(len(ctx.MakeTargets) == len(ctx2.MakeTargets), "C13: analysing the same listing twice gives the same make targets")
 	// the boosts derived from the listing: the same whatever order any map is walked in
-	b1 := ctx.GetContextBoosts()
+	verifFreeze("GetContextBoosts", ctx)
+	b1 := ctx.GetContextBoosts() // writes nothing that existed before the call (package tables, the context)
+	verifUnguard()
 	verifMapOrder(3)
 	b2 := ctx2.GetContextBoosts()
 	verifMapOrder(1)
